@@ -329,6 +329,19 @@ pub fn c03(tier: &str, flavor: Flavor) -> Spec {
 fn o_c05(p: &Program, t: &Trace) -> Vec<Finding> {
     let mut v = o_reclaim(p, t);
     v.extend(o_agree(p, t));
+    if !is_settled(p) {
+        // at every quiescent point: no entry is still physically resident later than its deadline
+        // + one bucket width + one cleanup interval (+ the tick that is due at that very instant)
+        let bound = 1_000_000_000u128 + p.cfg.cleanup_interval().as_nanos();
+        for s in t.snaps.iter().filter(|s| s.quiescent) {
+            for e in &s.entries {
+                if e.d_ns > 0 && s.now_ns > e.created_ns + e.d_ns + bound {
+                    v.push(("expired-not-reclaimed".to_string(), format!("{:?} (deadline +{} ms) is still physically resident at +{} ms, later than deadline + 1 s + cleanup interval", e.value, (e.created_ns + e.d_ns).saturating_sub(stretto_verif_rt::world::E0_NS + p.cfg.phase_ms as u128 * 1_000_000) / 1_000_000, s.now_ns.saturating_sub(stretto_verif_rt::world::E0_NS + p.cfg.phase_ms as u128 * 1_000_000) / 1_000_000)));
+                    return v;
+                }
+            }
+        }
+    }
     if !is_settled(p) && t.evict_rounds.is_empty() {
         // cleanup racing the client: with ample capacity on_evict is the sweep, and the sweep only
         // takes entries whose own TTL has elapsed
@@ -384,6 +397,27 @@ pub fn c05(tier: &str, flavor: Flavor) -> Spec {
         }
     }
     jobs.extend(tick_race_jobs(flavor, quick, "c05-tick-race"));
+    // two keys filed into one fresh expiry bucket at the same time: the processor applying a new
+    // TTL insert while the client re-files a resident key (in place) with a TTL of the same second
+    {
+        let cfg = Cfg { max_cost: 100, ..Cfg::default() };
+        for body in [
+            vec![ins(1, 1, 1000), ins(2, 1, 1000)],
+            vec![ins(1, 1, 1000), ins(2, 1, 1200), ins(3, 1, 1000)],
+            vec![ins(1, 1, 1000), Op::Pres { k: 2, c: 1 }, ins(2, 1, 1000)],
+            vec![ins(2, 1, 1000), ins(1, 1, 1000), ins(3, 1, 1000)],
+        ] {
+            let mut ops = body.clone();
+            ops.push(Op::Settle);
+            for _ in 0..4 {
+                ops.push(Op::Adv { ms: 1000 });
+                ops.push(Op::Settle);
+            }
+            let mut p = single(&cfg, flavor, ops);
+            p.setup = vec![ins(2, 1, 0), ins(3, 1, 5000)];
+            jobs.push(job(p, &[2], "c05-fresh-bucket-race"));
+        }
+    }
     Spec {
         id: "C05",
         jobs,
@@ -481,6 +515,23 @@ pub fn c09(tier: &str, flavor: Flavor) -> Spec {
             jobs.push(job(single(&cfg, flavor, ops.clone()), &[1], "c09-unsettled-evicting"));
         }
     }
+    // two clients writing one resident key under the "newer wins" validator: verdict and
+    // replacement are one atomic step, a write the validator must refuse never replaces a newer one
+    {
+        let vcfg = Cfg { validator: ValidatorMode::Newer, ..Cfg::default() };
+        let va = [ins(1, 1, 0), Op::Pres { k: 1, c: 1 }, ins(1, 1, 2000), Op::Get { k: 1 }];
+        let vb = bodies(&va, if quick { 1 } else { 2 });
+        for a in &vb {
+            for b in &vb {
+                if !a.iter().chain(b.iter()).any(|o| matches!(o, Op::Ins { .. } | Op::Pres { .. })) {
+                    continue;
+                }
+                let mut p = conc(&vcfg, flavor, &[ins(1, 1, 0)], vec![a.clone(), b.clone()]);
+                p.post = vec![Op::Settle, Op::Get { k: 1 }];
+                jobs.push(job(p, &[2], "c09-validator-race"));
+            }
+        }
+    }
     Spec {
         id: "C09",
         jobs,
@@ -553,6 +604,9 @@ fn o_c09_unsettled(p: &Program, t: &Trace) -> Vec<Finding> {
     out
 }
 fn o_c09_all(p: &Program, t: &Trace) -> Vec<Finding> {
+    if p.threads.len() > 1 {
+        return o_newer_monotone(p, t);
+    }
     if is_settled(p) {
         o_c09(p, t)
     } else {
@@ -677,7 +731,11 @@ fn all_std() -> Vec<String> {
 // C01
 
 fn o_c01(p: &Program, t: &Trace) -> Vec<Finding> {
-    o_policy(p, t)
+    let mut v = o_policy(p, t);
+    // "the total cost charged for RESIDENT entries": an entry that is resident without being
+    // charged escapes the bound (and can never be evicted)
+    v.extend(o_agree(p, t));
+    v
 }
 
 pub fn c01(tier: &str, flavor: Flavor) -> Spec {
@@ -778,6 +836,8 @@ pub fn c01(tier: &str, flavor: Flavor) -> Spec {
         }
     }
     jobs.extend(popular_jobs(flavor, false, quick, "c01-popular"));
+    // charges released / kept by the expiry sweep while the client refreshes the same keys
+    jobs.extend(tick_race_jobs(flavor, quick, "c01-tick-race"));
     Spec {
         id: "C01",
         jobs,
@@ -832,6 +892,19 @@ pub fn c06(tier: &str, flavor: Flavor) -> Spec {
         jobs.push(job(single(&cfg, flavor, s), &[1], "c06-seq"));
     }
     jobs.extend(popular_jobs(flavor, false, quick, "c06-popular"));
+    // tiny insert buffers: inserts, updates and removes meeting a full buffer (an operation that
+    // reports an error takes the history out of the statement's scope)
+    for buf in [1usize, 2] {
+        let bcfg = Cfg { max_cost: 100, buffer_size: buf, ..Cfg::default() };
+        let ba = [ins(1, 1, 0), ins(2, 1, 0), ins(3, 1, 0), Op::Rem { k: 1 }, Op::Rem { k: 2 }, Op::Settle];
+        for s in sequences(&ba, if quick { 4 } else { 5 }) {
+            let mut ops = s.clone();
+            ops.push(Op::Settle);
+            let mut p = single(&bcfg, flavor, ops);
+            p.setup = vec![ins(1, 1, 0)];
+            jobs.push(job(p, &[0], "c06-small-buffer"));
+        }
+    }
     Spec {
         id: "C06",
         jobs,
@@ -1498,6 +1571,13 @@ pub fn c17(tier: &str, flavor: Flavor) -> Spec {
             }
         }
     }
+    // two clients clearing: every clear() restarts the counters, also one that was requested while
+    // the processor was still busy with another
+    for a in [vec![Op::Clear], vec![Op::Get { k: 1 }, Op::Clear]] {
+        for b in [vec![Op::Clear], vec![Op::Get { k: 1 }, Op::Clear], vec![Op::Get { k: 2 }, Op::Clear, Op::Get { k: 1 }]] {
+            jobs.push(job(conc(&cfg, flavor, &[ins(1, 1, 0)], vec![a.clone(), b.clone()]), &[1], "c17-two-clears"));
+        }
+    }
     jobs.extend(popular_jobs(flavor, true, quick, "c17-popular"));
     jobs.extend(stripe_jobs(flavor, "c17-stripes"));
     Spec {
@@ -1506,7 +1586,7 @@ pub fn c17(tier: &str, flavor: Flavor) -> Spec {
         oracle: o_c17,
         interesting: |_, t| t.snaps.last().and_then(|s| s.metrics.as_ref()).map(|m| m.keys_added > 0 || m.hits > 0).unwrap_or(false),
         rule: format!(
-            "metrics on. E-seq: every settled history of depth {} over 13 symbols (I(k), I(1,2), I(2,1s), P(1), R(1), G(1), G(3), M(2), A(1.5s), X, U(1)) at max_cost 2 and 100, conservation laws evaluated at EVERY quiescent point; unsettled histories over {{I(1), I(2), I(3), I(1), G(1), S}} with insert buffer 1 and 2 (forces sets_dropped); E-conc: two clients x bodies of <= {} operations from {{G(1), I(1), I(3), R(1)}} x 2 pre-states with the metric stripes as scheduling points, preemption bound 2; the same bodies against a client doing X / X;I(3) / I(3);X at bound 2; one settled history (hit, miss, update, TTL expiry, remove, clear, fresh start) per metrics stripe (keys 25..49); non-trivial = keys_added > 0 or hits > 0",
+            "metrics on. E-seq: every settled history of depth {} over 13 symbols (I(k), I(1,2), I(2,1s), P(1), R(1), G(1), G(3), M(2), A(1.5s), X, U(1)) at max_cost 2 and 100, conservation laws evaluated at EVERY quiescent point; unsettled histories over {{I(1), I(2), I(3), I(1), G(1), S}} with insert buffer 1 and 2 (forces sets_dropped); E-conc: two clients x bodies of <= {} operations from {{G(1), I(1), I(3), R(1)}} x 2 pre-states with the metric stripes as scheduling points, preemption bound 2; the same bodies against a client doing X / X;I(3) / I(3);X at bound 2; two clearing clients (lookups before / after their clears) at bound 1; one settled history (hit, miss, update, TTL expiry, remove, clear, fresh start) per metrics stripe (keys 25..49); non-trivial = keys_added > 0 or hits > 0",
             if quick { 3 } else { 4 },
             if quick { 1 } else { 2 }
         ),
